@@ -154,7 +154,8 @@ fn stream_cores(ctx: &Ctx, t: &mut Tape<'_>, r: &mut Report) -> CheckResult {
     let f = &suite.streams[t.idx(suite.streams.len())];
     let key = gen_key(t, suite);
     let bs = suite.info.bs;
-    let iv = gen_iv(t, bs);
+    let c = (suite.keyed)(&key);
+    let iv = gen_stream_iv(t, f.kind(), bs, c.as_ref(), suite.info.has_dec);
     let par = suite.info.par;
     let n = gen_nblocks(t, par, 48);
     let data = tape::gen_bytes(t, n * bs);
